@@ -40,7 +40,7 @@ func init() {
 			return Plan{Level: "exploration", NCases: c18Matrix + pick(tier, 16, 300), Batch: 2, CaseTimeout: 180,
 				Rule: "cases 0-19 (role matrix): every request type of both APIs (etcd Txn create/update/delete, Range get/list/count/partitions, Watch, range-stream watch, Lease; native Create/Update/Delete/Compact/Get/Range/Count/ListPartition/RangeStream/Watch) x {leader, follower} x {proxy on, off} x {leader reachable, unreachable, HTTP 400, HTTP 500, the recorded leader being a real node that is not leading (its real /status handler answers)}, handlers built over a call-recording Backend, the REAL revision syncer pointed at an httptest leader, a stub election and a recording proxy. " +
 					"oracle: on a follower the backend never sees Create/Update/Delete/Compact/Watch (request rejected Unavailable or handed to the proxy), every backend read is preceded by SetCurrentRevision(v) with v served by the leader during this very request, a failed sync gives an error and no backend read; on the leader writes reach the backend and no sync happens. " +
-					"further cases (two nodes): a leader node and a follower node over one store with the real revision syncer over HTTP; writers on the leader, concurrent readers on the follower; in half of them the verif hooks hold one reader between fetching and setting the revision while another sits between its own set and its backend read. oracle: the follower's response header >= the leader's committed revision sampled before the request began, and the data equals the reference snapshot at the header revision. " +
+					"further cases (two nodes): a leader node and a follower node over one store with the real revision syncer over HTTP; writers on the leader, concurrent readers on the follower; in a third of them the verif hooks hold one reader between fetching and setting the revision while another sits between its own set and its backend read; in another third five readers holding different fetched revisions are released into the set at the same instant (150 rounds). oracle: the follower's response header >= the leader's committed revision sampled before the request began, and the data equals the reference snapshot at the header revision. " +
 					"non-trivial = matrix case with all request types exercised, or two-node case with >=20 follower reads overlapping leader writes; distinct by (role, proxy, leader mode) / (placement, read count)",
 				Assumptions: []string{"the etcd proxy is a recording stub (the real one needs an etcd client connection to the leader)", "in the two-node cases the election is a stub; the status handler is the real one's logic re-served from the leader's backend"},
 				MinConcl:    c18Matrix + pick(tier, 12, 250)}
@@ -52,8 +52,11 @@ func init() {
 				mode := c18Modes[(c.Index/4)%len(c18Modes)]
 				return "matrix/" + role + "/" + proxy + "/" + mode
 			}
-			if c.Index%2 == 0 {
+			switch c.Index % 3 {
+			case 0:
 				return "two-nodes/placed"
+			case 1:
+				return "two-nodes/simultaneous-set"
 			}
 			return "two-nodes/stress"
 		},
@@ -61,7 +64,7 @@ func init() {
 			if c.Index < c18Matrix {
 				runC18Matrix(c)
 			} else {
-				runC18TwoNodes(c, c.Index%2 == 0)
+				runC18TwoNodes(c, c.Index%3 == 0, c.Index%3 == 1)
 			}
 		},
 	}
@@ -375,7 +378,7 @@ func runC18Matrix(c *harness.Case) {
 var c18Hook sync.Once
 var c18Handler atomic.Value // func(name string, arg uint64)
 
-func runC18TwoNodes(c *harness.Case, placed bool) {
+func runC18TwoNodes(c *harness.Case, placed bool, simultaneous bool) {
 	c18Hook.Do(func() {
 		revision.VerifSetCallback(func(name string, arg uint64) {
 			if f, ok := c18Handler.Load().(func(string, uint64)); ok && f != nil {
@@ -535,13 +538,74 @@ func runC18TwoNodes(c *harness.Case, placed bool) {
 			rwg.Wait()
 			c18Handler.Store(func(string, uint64) {})
 		}
+	} else if simultaneous {
+		// five readers that fetched DIFFERENT leader revisions are all held right before setting them and released
+		// together, so that the sets run at the same instant; whichever order they take effect in, every reader must
+		// then read at a revision not older than the leader's revision when its own request began
+		const staged = 5
+		for round := 0; round < 150; round++ {
+			gate := make(chan struct{})
+			at := make(chan struct{}, staged)
+			var held, spin int32
+			c18Handler.Store(func(name string, arg uint64) {
+				if name == "sync.beforeSet" && atomic.AddInt32(&held, 1) <= staged {
+					at <- struct{}{}
+					<-gate
+					// a short spin barrier brings the released goroutines within nanoseconds of each other
+					atomic.AddInt32(&spin, 1)
+					for i := 0; i < 2000000 && atomic.LoadInt32(&spin) < staged; i++ {
+					}
+				}
+			})
+			var rwg sync.WaitGroup
+			ok := 0
+			for k := 0; k < staged; k++ {
+				rwg.Add(1)
+				who := fmt.Sprintf("native-%c(held before set)", 'A'+k)
+				if k%2 == 1 {
+					who = fmt.Sprintf("etcd-%c(held before set)", 'A'+k)
+				}
+				go func() { defer rwg.Done(); doRead(who) }()
+				select {
+				case <-at:
+					ok++
+				case <-time.After(10 * time.Second):
+				}
+				// let the leader advance so that the next reader fetches a newer revision
+				w0 := atomic.LoadInt64(&writes)
+				for t := 0; t < 2000 && atomic.LoadInt64(&writes) < w0+1; t++ {
+					time.Sleep(100 * time.Microsecond)
+				}
+			}
+			if ok == staged {
+				atomic.AddInt64(&placedOK, 1)
+			}
+			close(gate)
+			rwg.Wait()
+			c18Handler.Store(func(string, uint64) {})
+		}
 	} else {
+		// readers are released together round by round (just scheduling), so that several of them adopt different
+		// leader revisions at the same instant
+		const readers, rounds = 8, 60
 		var rwg sync.WaitGroup
-		for i := 0; i < 4; i++ {
+		gates := make([]chan struct{}, rounds)
+		arrived := make([]int32, rounds)
+		for i := range gates {
+			gates[i] = make(chan struct{})
+		}
+		for i := 0; i < readers; i++ {
 			rwg.Add(1)
 			go func(i int) {
 				defer rwg.Done()
-				for j := 0; j < 40; j++ {
+				for j := 0; j < rounds; j++ {
+					if atomic.AddInt32(&arrived[j], 1) == readers {
+						close(gates[j])
+					}
+					select {
+					case <-gates[j]:
+					case <-time.After(2 * time.Second):
+					}
 					if i%2 == 0 {
 						doRead("native")
 					} else {
@@ -567,6 +631,9 @@ func runC18TwoNodes(c *harness.Case, placed bool) {
 			if placed {
 				sig += " placement=reader-delayed-between-fetch-and-set"
 			}
+			if simultaneous {
+				sig += " placement=two-readers-set-different-revisions-simultaneously"
+			}
 			c.Violatef(sig, map[string]interface{}{"reader": fr.who, "leader_committed_before_request": fr.before, "response_header": fr.header},
 				"%s: the follower answered at revision %d although the leader had already committed revision %d before the request began (a concurrent reader moved the follower's read revision backwards)", fr.who, fr.header, fr.before)
 			continue
@@ -583,8 +650,8 @@ func runC18TwoNodes(c *harness.Case, placed bool) {
 	}
 	c.Stat("leader_writes", atomic.LoadInt64(&writes))
 	c.Stat("placements_achieved", placedOK)
-	nt := overl >= 20 || (placed && placedOK > 0)
-	c.Fingerprint(nt, placed, len(reads), placedOK, c.Index)
+	nt := overl >= 20 || ((placed || simultaneous) && placedOK > 0)
+	c.Fingerprint(nt, placed, simultaneous, len(reads), placedOK, c.Index)
 	if c.Index < 20 {
 		c.R.Sample = map[string]interface{}{"placed": placed, "follower_reads": len(reads), "leader_writes": atomic.LoadInt64(&writes), "placements_achieved": placedOK}
 	}
